@@ -58,6 +58,7 @@ class Engine:
         self.trace = False
         self.var_names = {}
         self.current_top = None
+        self.stop_at_loop = None; self.stopped_states = []
         self.unroll_symbolic = 0      # >0: loops without contract may be unwound this many times with an unwinding obligation
         self.lazy_locals = False      # slice mode: unbound outer variables get arbitrary values on first use
         self.name_locals = 0          # depth up to which scalar locals become named symbols with a defining equation
@@ -799,7 +800,9 @@ class Engine:
             o = st.ghost.get(k)
             if k == 'epoch' and o != v: raise Unsupported('a call with unknown effects inside a conditional expression')
             if o is not None and o is not v:
-                st.ghost[k] = merge_vals([cond, z3.BoolVal(True)], [v, o])
+                st.ghost[k] = merge_vals([cond, z3.Not(cond)], [v, o]) if isinstance(v, GuardedLog) else merge_vals([cond, z3.BoolVal(True)], [v, o])
+            elif o is None and isinstance(v, GuardedLog):
+                st.ghost[k] = v.guarded(cond)
             elif o is None and k != 'epoch':
                 st.ghost[k] = v
 
@@ -1418,6 +1421,9 @@ class Engine:
     def run_loop(self, n, st, fr, cond, inc, body, pre_test=True, bind=None, range_info=None):
         """generic loop: contract if the spec has one, else bounded unrolling that must terminate syntactically"""
         ordn = self.loop_ordinal(n, fr)
+        if self.stop_at_loop is not None and self.stop_at_loop == (fr.fn['id'], ordn):
+            self.stopped_states.append(st)        # prefix contracts: the state on entry to the loop is what is specified
+            return []
         lc = self.specs.loop_contract(fr.qname, ordn) if self.specs else None
         if lc is not None:
             return lc.apply(self, n, st, fr, cond, inc, body, pre_test, bind, range_info)
